@@ -335,6 +335,7 @@ fn check_general(case: &EvdCase, ctx: &mut Ctx) -> Result<(), Fail> {
 pub fn property() -> Property {
     Property {
         id: "C02",
+        quick_mult: 80,
         rule: "symmetric inputs are Q diag(l) Q^T (dense / diagonal / two-block) with random, repeated, partly-zero or log-spread eigenvalues, rescaled by 10^[-12,12]; general inputs are random dense / integer, triangular, companion of chosen roots, normal Q B Q^T, rotation-scale blocks under a well-conditioned similarity, S diag(l) S^-1 with separated real l, and D A D^-1 with D powers of two. non-trivial = n >= 3 (symmetric), n >= 3 and A not symmetric (general); distinct = distinct serialised case",
         assumptions: vec![
             format!("bounds are C*eps*n*norm(A) with C = {}, multiplied by the condition number of the constructing similarity where one is used (eigenvalues of non-normal matrices are only that well determined)", C),
